@@ -59,7 +59,7 @@ try:
     run(f"git apply {patch}")
     rc, out = run("go build ./...")
     assert rc == 0, "does not build: " + out
-    pkgs = sorted({"./" + os.path.dirname(t) + "/" for t in touched})
+    pkgs = sorted({"./" + os.path.dirname(t) + "/" for t in touched if t.endswith(".go")})
     rc, out = run("go vet " + " ".join(pkgs))
     assert rc == 0, "go vet: " + out
     failed, still = suite()
